@@ -20,6 +20,13 @@ func GetToken(input string, valTy *ValType, pos *int) int {
 	}
 	return 7777
 }
+// a reduction counter for the sequential pass only (atomic, so that it is no shared write of its own in the concurrent pass):
+// inputs on which an ambiguous grammar keeps reducing for ever are found there and left out of the concurrent pass
+var zzSteps int64
+var zzLimitOn int32
+func ResetSteps() { atomic.StoreInt64(&zzSteps, 0) }
+func SetLimit(on bool) { if on { atomic.StoreInt32(&zzLimitOn, 1) } else { atomic.StoreInt32(&zzLimitOn, 0) } }
+func zzStep() { if atomic.AddInt64(&zzSteps, 1) > 400 && atomic.LoadInt32(&zzLimitOn) == 1 { panic("STEPLIMIT") } }
 func parseOn(c *Context, input string) (res string) {
 	defer func() { if r := recover(); r != nil { res = fmt.Sprint("E|", r) } }()
 	c.ParserInit()
@@ -45,6 +52,8 @@ import (
 type unit struct {
 	name string
 	worker func() func(string) string
+	reset func()
+	limit func(bool)
 	inputs []string
 }
 var units = []unit{
@@ -53,8 +62,19 @@ var units = []unit{
 func main() {
 	// what every parse gives alone, on a fresh context, with nothing else running
 	want := make([][]string, len(units))
-	for i, u := range units {
-		for _, in := range u.inputs { want[i] = append(want[i], u.worker()(in)) }
+	for i := range units {
+		u := &units[i]
+		u.limit(true)
+		keep := []string{}
+		for _, in := range u.inputs {
+			u.reset()
+			r := u.worker()(in)
+			if len(r) >= 11 && r[:11] == "E|STEPLIMIT" { continue } // the grammar loops on this input: not a job for the concurrent pass
+			keep = append(keep, in)
+			want[i] = append(want[i], r)
+		}
+		u.inputs = keep
+		u.limit(false)
 	}
 	for i, u := range units { for k, in := range u.inputs { fmt.Printf("ALONE\\t%%s\\t%%s\\t%%s\\n", u.name, in, want[i][k]) } }
 	var mu sync.Mutex
@@ -70,6 +90,7 @@ func main() {
 				<-start
 				for round := 0; round < %(rounds)d; round++ {
 					for k := range u.inputs {
+						if len(u.inputs) == 0 { break }
 						j := (k*7 + gid*3 + round) %% len(u.inputs)
 						got := parse(u.inputs[j])
 						if got != want[i][j] {
@@ -93,12 +114,12 @@ func main() {
 
 def pure_action(idx, r):
     expr = ' + '.join(['%d*$%d' % (r['coef'][j], j + 1) for j in range(len(r['rhs'])) if r['coef'][j] != 0] + [str(r['c'])])
-    return '{ $$ = (%s) %% %d }' % (expr, gram.MOD)
+    return '{ zzStep(); $$ = (%s) %% %d }' % (expr, gram.MOD)
 
 
 def y_text(g, pkg):
     cases = ''.join('\tcase %d:\n\t\tvalTy.%s = zzx\n\t\treturn %s\n' % (i, t['tag'], genrun.tok_expr(g, i, 'go')) for i, t in enumerate(g['terms']))
-    head = '%{\npackage ' + pkg + '\nimport "fmt"\nimport "strings"\n%}\n%union {\n v0 int\n v1 int\n v2 int\n zzseq int\n}\n'
+    head = '%{\npackage ' + pkg + '\nimport "fmt"\nimport "strings"\nimport "sync/atomic"\n%}\n%union {\n v0 int\n v1 int\n v2 int\n zzseq int\n}\n'
     return head + genrun.decl_block(g, 'go') + '%%\n' + gram.render_rules(g, pure_action) + '%%\n' + EPI % dict(cases=cases, starttag=g['nonterms'][g['start']]['tag'])
 
 
@@ -139,7 +160,7 @@ def run(ctx, ngram=None, goroutines=6, rounds=None):
                     shutil.rmtree(os.path.join(work, pkg))
                     continue
                 imports.append('\t"probe/%s"\n' % pkg)
-                units.append('\t{"%s", %s.Worker, []string{%s}},\n' % (pkg, pkg, ', '.join('"%s"' % x for x in inputs)))
+                units.append('\t{"%s", %s.Worker, %s.ResetSteps, %s.SetLimit, []string{%s}},\n' % (pkg, pkg, pkg, pkg, ', '.join('"%s"' % x for x in inputs)))
         open(os.path.join(work, 'main.go'), 'w').write(MAIN % dict(imports=''.join(imports), units=''.join(units), goroutines=goroutines, rounds=rounds))
         r = subprocess.run(['go', 'build', '-race', '-o', 'bin', '.'], cwd=work, capture_output=True, text=True, env=vlib.GOENV, timeout=1200)
         if r.returncode != 0:
